@@ -77,3 +77,51 @@ func MisalignedNext(xs []uint64, i int32) int32 {
 	}
 	return -1
 }
+
+// ---- R-PANICSITES / R-ALLOCWRAP (expected count on the real tree is zero: these must match on every run)
+func BadNewPanic(xs []uint64, i int32) uint64 {
+	if int(i>>6) > len(xs) {
+		panic("out of range")
+	}
+	return xs[i>>6]
+}
+func GoodNoPanic(xs []uint64, i int32) uint64 { return xs[i>>6] }
+func BadAllocWrap(from, to uint64) []uint64   { return make([]uint64, 0, to-from) }
+func GoodAllocGuarded(from, to uint64) []uint64 {
+	if to < from {
+		return nil
+	}
+	return make([]uint64, 0, to-from)
+}
+
+// ---- helper inlining: a boolean helper in an if condition keeps the guarded access directly controlled
+func hasWord(xs []uint64, k int) bool {
+	if k < 0 {
+		return false
+	}
+	return k < len(xs)
+}
+func ThreadedGet(xs []uint64, k int) uint64 {
+	if hasWord(xs, k) {
+		return xs[k]
+	}
+	return 0
+}
+
+// ---- boolean flag threading: the flag stands for the condition that set it
+func FlagGet(xs []uint64, k int) uint64 {
+	inside := false
+	if k >= 0 && k < len(xs) {
+		inside = true
+	}
+	if inside {
+		return xs[k]
+	}
+	return 0
+}
+
+// ---- linear forms: len of a re-slice and of a fresh slice, a distributed product
+func LinLen(xs []uint64, n, j, w int) (int, int, int) {
+	ys := make([]uint64, n)
+	return len(xs[1:]), len(ys), w * (j + 1)
+}
